@@ -59,7 +59,8 @@ def views(p):
 
 MUTATORS = ["insert", "setitem", "setslice", "delitem", "delslice", "append", "extend", "pop", "remove", "reverse", "iadd",
             "clear", "insert_python", "insert_python_last", "insert_python_exec_replace", "append_python", "append_python_pop",
-            "insert_magic_int", "insert_python_obj", "insert_fn_call", "insert_fn_call_compiled"]
+            "insert_magic_int", "insert_python_obj", "insert_fn_call", "insert_fn_call_compiled",
+            "insert_python_fails_midway", "append_python_fails_midway", "insert_python_obj_fails_midway"]
 
 
 def apply(p, m, i, j, pay):
@@ -107,6 +108,12 @@ def apply(p, m, i, j, pay):
         p.insert_function_call_on_unpickled_object("def zq(obj):\n    return obj")
     elif m == "insert_fn_call_compiled":
         p.insert_function_call_on_unpickled_object("def zq(obj):\n    return obj", compile_code=True)
+    elif m == "insert_python_fails_midway":
+        p.insert_python("ok", {1, 2})          # the set argument is refused after GLOBAL, MARK and the first constant went in
+    elif m == "append_python_fails_midway":
+        p.append_python("ok", [1])             # append_python takes constants only: raises after GLOBAL, MARK, 'ok'
+    elif m == "insert_python_obj_fails_midway":
+        p.insert_python_obj(0, [1, 2, object()])
     else:
         raise AssertionError(m)
 
@@ -275,7 +282,7 @@ def make_pairs(m1):
 
     def lem(base: int, m2: int) -> bool:
         """
-        pre: 0 <= base < 6 and 0 <= m2 < 21
+        pre: 0 <= base < 6 and 0 <= m2 < 24
         post: _
         """
         base, m2 = pin(base, 0, 5), pin(m2, 0, len(MUTATORS) - 1)
